@@ -92,6 +92,7 @@ class Evaluator:
         # written at the call (so that extracting a loop into a helper, or folding one back, does not change a summary)
         self.inline_private_loops = inline_private_loops
         self.transparent = []
+        self.tysubst = []        # type arguments of the generic crate functions being evaluated in place
         self.transparent_seen = set()     # private loop helpers evaluated in place
         self.opaque_loop_calls = set()    # crate-local callees with loops that stayed opaque calls
         self.closures = {}
@@ -858,6 +859,15 @@ class Evaluator:
                 env[kid] = a if a == b else self.join(c, a, b)
         return self.join(c, tv, ev_)
 
+    def ctor_leaves(self, t, fuel=8):
+        """every leaf of a tree of conditionals is an Option / Result constructor value"""
+        t = T.unroot(t)
+        if not isinstance(t, tuple) or not t or fuel <= 0:
+            return False
+        if t[0] == 'ite' and len(t) == 4:
+            return self.ctor_leaves(t[2], fuel - 1) and self.ctor_leaves(t[3], fuel - 1)
+        return t[0] in ('some', 'none', 'ok', 'err')
+
     def bind_iflet(self, cnode, env, body, depth):
         v = self.ev(cnode['init'], env, body, depth)
         self.bind(cnode['pat'], v, env)
@@ -898,6 +908,22 @@ class Evaluator:
         if src == 'ForLoopDesugar':
             return self.ev_forloop(e, env, body, depth)
         scrut = self.ev(e['scrut'], env, body, depth)
+        return self.match_value(e, scrut, env, body, depth)
+
+    def match_value(self, e, scrut, env, body, depth, fuel=6):
+        # case of case: a scrutinee that is itself a conditional over constructor values (a helper returning
+        # `if c { Some(x) } else { None }`, matched by its caller) is matched leaf by leaf
+        su = T.unroot(scrut)
+        if fuel > 0 and isinstance(su, tuple) and len(su) == 4 and su[0] == 'ite' and self.ctor_leaves(su):
+            c = su[1]
+            env_t, env_e = dict(env), dict(env)
+            tv = self.with_pc([c], lambda: self.match_value(e, su[2], env_t, body, depth, fuel - 1))
+            ev_ = self.with_pc([T.tnot(c)], lambda: self.match_value(e, su[3], env_e, body, depth, fuel - 1))
+            for kid in set(env_t) | set(env_e):
+                if kid in env and (env_t.get(kid) != env.get(kid) or env_e.get(kid) != env.get(kid)):
+                    a, b = env_t.get(kid, env[kid]), env_e.get(kid, env[kid])
+                    env[kid] = a if a == b else self.join(c, a, b)
+            return self.join(c, tv, ev_)
         conds = [self.bool_pattern(a['pat'], scrut) for a in e['arms']]
         if all(c is not None for c in conds) and all(a.get('guard') is None for a in e['arms']):
             # a match over boolean literals / tuples of them is a decision list: nested conditionals
@@ -1754,6 +1780,10 @@ class Evaluator:
             return None
         import re as _re
         ty = strip_refs(e.get('recv_ty', ''))
+        for sub in reversed(self.tysubst):
+            if ty in sub:       # the receiver's type is a type parameter of a generic function evaluated in place
+                ty = strip_refs(sub[ty])
+                break
         for imp in self.crate.impls:
             sty = _re.sub(r'/#\d+', '', strip_refs(imp.get('self_ty', '')))
             same = sty == ty
@@ -1808,7 +1838,9 @@ class Evaluator:
                 # are written over
                 composed = any(isinstance(y, tuple) and len(y) == 3 and y[0] == 'call' and isinstance(y[1], str) and y[1].startswith(e['callee_trait'] + '::')
                                for y in T.subterms(v))
-                if plain and (own_type or composed):
+                # .. and a crate-private trait is an implementation detail, never an abstraction the equations are written over
+                private_trait = str(b2.raw.get('vis', '')).startswith('Restricted')
+                if plain and (own_type or composed or private_trait):
                     return v
                 del self.events[mark:]
         adj = e['recv'].get('adj') or []
@@ -2216,10 +2248,13 @@ class Evaluator:
             if b.raw.get('trait') and not b.raw.get('impl'):
                 return T.root(T.call(path, *[T.unroot(a) for a in args]))
             self.stack.append((path, node if node is not None else {}, body))
+            gens = b.raw.get('generics') or []
+            self.tysubst.append({g: t for g, t in zip(gens, targs or []) if isinstance(t, str)} if gens and targs and len(gens) == len(targs) else {})
             try:
                 return self.unwrap_ret(self.eval_body(b, args, depth + 1))
             finally:
                 self.stack.pop()
+                self.tysubst.pop()
         if path in NOINLINE and node is not None:
             self.trace.append(('call', node, (path, tuple(args))))
         return T.root(T.call(path, *[T.unroot(a) for a in args]))
